@@ -179,7 +179,7 @@ theorem addWires_run {pp pp' : PP} {lb i k : Nat} (hwf : pp.WF) (h : addWires pp
       obtain ⟨hrun, hwf1, hdom1, hcod1, hlen, hle, hlay⟩ := PP.addWire_run hwf hadd ws x hws
       obtain ⟨hrun2, hwf2, hdom2, hcod2, hlay2⟩ :=
         ih hwf1 h (ws ++ [x]) xs' (by simp [hws, hdom1]) (by simpa using hxs)
-      refine ⟨?_, hwf2, by omega, by omega, fun hl => hlay (hlay2 hl)⟩
+      refine ⟨?_, hwf2, by omega, by omega, fun hl => (hlay (hlay2 hl)).1⟩
       have : ws ++ x :: xs' = ws ++ [x] ++ xs' := by simp
       rw [this, hrun2, hrun]
       simp only
